@@ -388,17 +388,56 @@ def run_scenario(ctx, s):
             g.close()
 
 
+def _fixed(name, expect, **kw):
+    d = dict(k=1, happy=1, n=3, num_servers=3, size=100, maxseg=64, readonly=[], full=[], pre_servers=[], pre_delete=0.0,
+             faults=[], broken=[], policy="fifo", seed=5, batch=None)
+    d.update(kw)
+    return (name, expect, d)
+
+
+# FIXED CORPUS: run first, independent of VERIF_SEED; one minimal scenario per known mechanism (the seeded changes
+# seeded/C06-a, -b, -c; no defect of C06 was repaired in /repo).  `expect` = the outcome of the unchanged code.
+CORPUS = [
+    # C06-a: _remove_shareholder must recompute happiness although the lost share still has another holder.
+    # Server 0 holds shares 0,1,2 from an earlier upload, servers 1 and 2 get one duplicate each, threshold 3;
+    # the writer on a new server fails during the push -> happiness 2 < 3 -> unhappiness error.
+    _fixed("a-dup-holder-write-phase", "unhappy", happy=3, pre_servers=[0], faults=[[1, "write", 0]], batch=40),
+    _fixed("a-dup-holder-flush", "unhappy", happy=3, pre_servers=[0], faults=[[2, "write", 0]]),
+    _fixed("a-dup-holder-close", "unhappy", happy=3, pre_servers=[0], faults=[[1, "close", 0]], policy="lifo"),
+    # C06-b: a failed remote write must reach the encoder (layout._actually_write hands the failure back).
+    # One transient write failure on an otherwise healthy server; its close would be delivered normally.
+    _fixed("b-lost-flush-tight", "unhappy", k=2, n=4, num_servers=4, happy=4, faults=[[1, "write", 0]]),
+    _fixed("b-lost-flush-loose", "success", k=2, n=4, num_servers=4, happy=2, faults=[[1, "write", 0]]),
+    _fixed("b-lost-midstream-write", "success", k=2, n=4, num_servers=4, happy=3, size=333, faults=[[2, "write", 2]], batch=40),
+    # C06-c: UploadResults must be built from the landlords that survived the push, not from the allocation table.
+    # A writer is lost during the push, the upload still succeeds; the lost share must not be reported.
+    _fixed("c-lost-close-still-happy", "success", k=2, n=4, num_servers=4, happy=2, faults=[[1, "close", 0]]),
+    _fixed("c-lost-write-still-happy", "success", k=2, n=4, num_servers=4, happy=3, faults=[[3, "write", 1]], batch=40,
+           policy="random"),
+    _fixed("c-two-lost-still-happy", "success", k=1, n=5, num_servers=5, happy=2, faults=[[0, "write", 0], [4, "close", 0]]),
+]
+
+
 def run(ctx):
     import common
     common.setup_impl_path()
     if ctx.replay and isinstance(ctx.replay.get("case"), dict) and "num_servers" in ctx.replay["case"]:
-        d = {k: v for k, v in ctx.replay["case"].items() if k not in ("fired", "outcome", "server", "shnum", "layout", "incoming")}
+        d = {k: v for k, v in ctx.replay["case"].items() if k not in ("fired", "outcome", "server", "shnum", "layout", "incoming", "corpus", "expect")}
         scen = [scenario_from(d)]
     else:
-        scen = [gen_scenario(ctx.rng) for _ in range(ctx.budget(300, 4000))]
+        corpus_only = bool(os.environ.get("VERIF_CORPUS_ONLY"))
+        scen = [scenario_from(dict(d, corpus=name, expect=expect)) for (name, expect, d) in CORPUS]
+        if not corpus_only:
+            scen += [gen_scenario(ctx.rng) for _ in range(ctx.budget(220, 4000))]
     lines, wants, cases = [], [], []
     for s in scen:
         case, line, want = run_scenario(ctx, s)
+        if getattr(s, "corpus", None):
+            ctx.count("corpus:" + s.corpus)
+            if case["outcome"] != s.expect or not case["fired"]:
+                # the fixed scenario no longer exercises its mechanism (or the code decides differently)
+                ctx.disagree("fixed corpus scenario %s: outcome / fault not as on the reference code" % s.corpus, case,
+                             [case["outcome"], len(case["fired"])], [s.expect, "fault fired"])
         if line:
             lines.append(line)
             wants.append(want)
@@ -433,6 +472,8 @@ def run(ctx):
                 ctx.count("model-outcome:" + got["outcome"])
     if cases:
         ctx.sample(cases[0])
+    if os.environ.get("VERIF_CORPUS_ONLY") and not ctx.replay:
+        return
     # cross-check of the happiness function handed to the model
     from allmydata.util.happinessutil import servers_of_happiness
     hl, hw, hc = [], [], []
